@@ -290,7 +290,9 @@ void error_handler (const char *err) {
     {
       debug_message ("{}\t***** New error occured while generating error trace!");
       debug_message_with_location (err);
-      dump_trace (g_trace_flag);
+      /* without arguments and local variables: printing those applies master::object_name(), and when that is
+       * what fails every trace of the failure would fail the same way, one level deeper and once per object */
+      dump_trace (0);
 
       if (current_error_context)
         longjmp (current_error_context->context, 1);
